@@ -827,7 +827,7 @@ def main(ctx, replay):
         points, inlock, prelock = [], False, False
     hbin, glog = C.go_build_harness(ctx, extra_replace=({os.path.join(C.REPO, "internal", "app", "run.go"): sync_src} if sync_src else None))
     if hbin is None:
-        raise RuntimeError("harness build failed:\n" + glog[-3000:])
+        raise C.HarnessBuildFailed(glog[-3000:])
     info["hbin"] = hbin
     evaluations, nontrivial, samples = 0, set(), []
     dist = {}
